@@ -226,7 +226,7 @@ pub fn codec_vectors(out: &mut dyn Write, tier: &str, seed: u64) -> J {
         }
     }
     // directory entries over boundary values of each field
-    let names: [&[u8; 11]; 5] = [b"README  TXT", b".          ", b"..         ", b"\xE5LD      \xFF\x80", b"A~1     Z  "];
+    let names: [&[u8; 11]; 7] = [b"README  TXT", b".          ", b"..         ", b"\xE5LD      \xFF\x80", b"A~1     Z  ", b"\x05LD     DAT", b"\x05          "];
     let clusters: [(u16, u16); 8] = [(0, 0), (0, 1), (0, 2), (0, 0xFFFF), (0x0FFF, 0xFFFF), (0xFFFF, 0xFFFF), (1, 0), (0x1234, 0x5678)];
     let sizes: [u32; 6] = [0, 1, 511, 512, 0x8000_0000, 0xFFFF_FFFF];
     let words: [(u16, u16); 6] = [(0x0021, 0x0000), (0xFF9F, 0xBF7D), (0x5121, 0x6000), (0x0000, 0x0000), (0xFFFF, 0xFFFF), (0x2A5A, 0x8C31)];
